@@ -81,3 +81,277 @@ Lemma wh_time_window_overlap s n d i k0 k1 r0 r1 f :
 Proof.
   intros Hs Hb H Hr0 Hr1 Hf D. subst D. rewrite (wh_index_D s n d i Hs Hb H). nia.
 Qed.
+
+(* ------------------------------------------------------------------ the step machine (WFixed) *)
+Local Open Scope nat_scope.
+
+Lemma wh_mod_le n a b : 0 < n -> a mod n = b mod n -> a < b + n -> a <= b.
+Proof.
+  intros Hn He Hlt.
+  pose proof (Nat.div_mod a n ltac:(lia)) as Ha. pose proof (Nat.div_mod b n ltac:(lia)) as Hb.
+  pose proof (Nat.mod_upper_bound a n ltac:(lia)) as Hr.
+  rewrite He in Ha, Hr.
+  assert (a / n <= b / n) by nia. nia.
+Qed.
+
+Lemma wh_mod_unique n a b : 0 < n -> a mod n = b mod n -> a < b + n -> b < a + n -> a = b.
+Proof.
+  intros Hn He H1 H2. pose proof (wh_mod_le n a b Hn He H1).
+  pose proof (wh_mod_le n b a Hn (eq_sym He) H2). lia.
+Qed.
+
+Lemma wh_nth_set_nth {A} (l : list A) j v j' :
+  j < length l ->
+  nth_error (wh_set_nth l j v) j' = if j' =? j then Some v else nth_error l j'.
+Proof.
+  unfold wh_set_nth. revert j j'. induction l as [|a l IH]; intros j j' Hj; cbn [length] in Hj; [lia|].
+  destruct j as [|j].
+  - destruct j' as [|j']; reflexivity.
+  - cbn [firstn skipn app]. destruct j' as [|j']; [reflexivity|].
+    cbn [nth_error]. change (S j' =? S j) with (j' =? j). apply IH. lia.
+Qed.
+
+Lemma wh_set_nth_length {A} (l : list A) j v : j < length l -> length (wh_set_nth l j v) = length l.
+Proof.
+  intros Hj. unfold wh_set_nth. rewrite app_length, firstn_length. cbn [length].
+  rewrite skipn_length. lia.
+Qed.
+
+(* ghost counters derived from the ticker pc (WFixed order): position stores / slot stores done *)
+Definition wh_P (s : wh_state) : nat :=
+  match wh_tpc_of s with WT4 _ _ | WT5 _ => S (wh_nclosed s) | _ => wh_nclosed s end.
+Definition wh_S (s : wh_state) : nat :=
+  match wh_tpc_of s with WT5 _ => S (wh_nclosed s) | _ => wh_nclosed s end.
+
+Definition wh_tinv (s : wh_state) : Prop :=
+  let C := wh_nclosed s in let n := wh_n s in
+  match wh_tpc_of s with
+  | WTIdle => wh_nstarted s = C
+  | WT1 => wh_nstarted s = S C
+  | WT2 lp => wh_nstarted s = S C /\ lp = C mod n
+  | WT3 lp last => wh_nstarted s = S C /\ lp = C mod n /\ last = C
+  | WT4 lp last => wh_nstarted s = S C /\ lp = C mod n /\ last = C
+  | WT5 last => wh_nstarted s = S C /\ last = C
+  | WTDead => False
+  end.
+
+(* channel x is the one closed by tick x+1: slot j holds the unique x = j (mod n) in [S, S+n) *)
+Record wh_ginv (s : wh_state) : Prop := {
+  gi_s : (0 < wh_s s)%Z;
+  gi_ovf : (wh_s s * Z.of_nat (wh_n s) < 2 ^ 63)%Z;
+  gi_n : 1 <= wh_n s;
+  gi_len : length (wh_slots s) = wh_n s;
+  gi_pos : wh_pos s = wh_P s mod wh_n s;
+  gi_next : wh_next s = wh_S s + wh_n s;
+  gi_slots : forall j x, nth_error (wh_slots s) j = Some x ->
+                         x mod wh_n s = j /\ wh_S s <= x < wh_S s + wh_n s;
+  gi_log : forall x, wh_closed_at s x = if x <? wh_nclosed s then Some (S x) else None
+}.
+
+Definition wh_idx_ok (n i : nat) : Prop := i + 2 <= n \/ (n = 1 /\ i = 0).
+
+Definition wh_rinv (n C P : nat) (pc : wh_rpc) : Prop :=
+  match pc with
+  | WRIdle | WRDead => True
+  | WR1 i k0 => wh_idx_ok n i /\ k0 <= C
+  | WR2 i k0 p => wh_idx_ok n i /\ k0 <= C /\ exists c, p = c mod n /\ k0 <= c /\ c <= P
+  | WR3 i k0 p x => wh_idx_ok n i /\ k0 <= C /\
+                    exists c, p = c mod n /\ x mod n = (c + i) mod n /\ k0 + i <= x /\ x < P + n
+  end.
+
+Definition wh_tsinv (s : wh_state) : Prop :=
+  Forall (fun th => wh_rinv (wh_n s) (wh_nclosed s) (wh_P s) (wh_rpc_of th)) (wh_threads s).
+
+Definition wh_inv (s : wh_state) : Prop := wh_ginv s /\ wh_tinv s /\ wh_tsinv s.
+
+Lemma wh_rinv_mono n C P C' P' pc :
+  C <= C' -> P <= P' -> wh_rinv n C P pc -> wh_rinv n C' P' pc.
+Proof.
+  intros HC HP. destruct pc as [|i k0|i k0 p|i k0 p x|]; cbn [wh_rinv]; try tauto.
+  - intros [H1 H2]. split; [exact H1|lia].
+  - intros [H1 [H2 [c [H3 [H4 H5]]]]]. split; [exact H1|]. split; [lia|]. exists c. repeat split; try assumption; lia.
+  - intros [H1 [H2 [c [H3 [H4 [H5 H6]]]]]]. split; [exact H1|]. split; [lia|]. exists c. repeat split; try assumption; lia.
+Qed.
+
+Lemma wh_tsinv_mono s s' :
+  wh_n s' = wh_n s -> wh_threads s' = wh_threads s ->
+  wh_nclosed s <= wh_nclosed s' -> wh_P s <= wh_P s' ->
+  wh_tsinv s -> wh_tsinv s'.
+Proof.
+  intros Hn Ht HC HP H. unfold wh_tsinv in *. rewrite Hn, Ht.
+  eapply Forall_impl; [|exact H]. intros th Hth. eapply wh_rinv_mono; eassumption.
+Qed.
+
+Lemma wh_init_inv s n ticks progs :
+  (0 < s)%Z -> 1 <= n -> (s * Z.of_nat n < 2 ^ 63)%Z -> wh_inv (wh_init s n ticks progs).
+Proof.
+  intros Hs Hn Hb. split; [|split].
+  - constructor; cbn; try assumption; try lia.
+    + apply seq_length.
+    + rewrite Nat.mod_0_l by lia. reflexivity.
+    + intros j x Hj. assert (Hlt : j < n).
+      { rewrite <- (seq_length n 0). apply nth_error_Some. rewrite Hj. discriminate. }
+      rewrite (nth_error_nth' (seq 0 n) 0) in Hj by (rewrite seq_length; exact Hlt).
+      rewrite seq_nth in Hj by exact Hlt. injection Hj as Hj. subst x. cbn.
+      rewrite Nat.mod_small by lia. lia.
+    + reflexivity.
+  - cbn. reflexivity.
+  - unfold wh_tsinv. cbn. apply Forall_forall. intros th Hin. apply in_map_iff in Hin.
+    destruct Hin as [p [Hp _]]. subst th. cbn. exact I.
+Qed.
+
+Lemma wh_closed_at_cons s ch g x tpc pos slots next nst ncl ticks :
+  wh_closed_at (wh_upd_ticker s pos slots next ((ch, g) :: wh_log s) nst ncl tpc ticks) x
+  = if ch =? x then Some g else wh_closed_at s x.
+Proof. unfold wh_closed_at. cbn. destruct (ch =? x); reflexivity. Qed.
+
+Lemma wh_tick_step_inv s : wh_inv s -> wh_inv (fst (wh_tick_step WFixed s)).
+Proof.
+  intros [Hg [Ht Hr]]. unfold wh_tick_step.
+  destruct Hg as [g1 g2 g3 g4 g5 g6 g7 g8].
+  unfold wh_tinv in Ht. unfold wh_P, wh_S in g5, g6, g7.
+  destruct (wh_tpc_of s) eqn:E.
+  - (* WTIdle *)
+    destruct (wh_ticks s) eqn:Ek.
+    { cbn [fst]. split; [|split]; try assumption.
+      - constructor; unfold wh_P, wh_S; rewrite ?E; assumption.
+      - unfold wh_tinv. rewrite E. exact Ht. }
+    cbn [fst]. split; [|split].
+    + constructor; unfold wh_P, wh_S; cbn; assumption.
+    + unfold wh_tinv. cbn. lia.
+    + apply (wh_tsinv_mono s); unfold wh_P; cbn; rewrite ?E; try reflexivity; try assumption; lia.
+  - (* WT1 *)
+    cbn [fst]. split; [|split].
+    + constructor; unfold wh_P, wh_S; cbn; assumption.
+    + unfold wh_tinv. cbn. split; [exact Ht|exact g5].
+    + apply (wh_tsinv_mono s); unfold wh_P; cbn; rewrite ?E; try reflexivity; try assumption; lia.
+  - (* WT2 *)
+    destruct Ht as [Ht1 Ht2].
+    destruct (nth_error (wh_slots s) lp) as [ch|] eqn:En.
+    + cbn [fst]. split; [|split].
+      * constructor; unfold wh_P, wh_S; cbn; assumption.
+      * unfold wh_tinv. cbn. split; [exact Ht1|]. split; [exact Ht2|].
+        destruct (g7 _ _ En) as [Hm Hrange].
+        apply (wh_mod_unique (wh_n s)); lia.
+      * apply (wh_tsinv_mono s); unfold wh_P; cbn; rewrite ?E; try reflexivity; try assumption; lia.
+    + exfalso. apply nth_error_None in En. rewrite g4 in En.
+      pose proof (Nat.mod_upper_bound (wh_nclosed s) (wh_n s) ltac:(lia)). lia.
+  - (* WT3: store position *)
+    destruct Ht as [Ht1 [Ht2 Ht3]].
+    cbn [fst]. split; [|split].
+    + constructor; unfold wh_P, wh_S; cbn; try assumption.
+      rewrite Ht2. rewrite Nat.add_mod_idemp_l by lia. f_equal. lia.
+    + unfold wh_tinv. cbn. repeat split; assumption.
+    + apply (wh_tsinv_mono s); unfold wh_P; cbn; rewrite ?E; try reflexivity; try assumption; lia.
+  - (* WT4: store slot *)
+    destruct Ht as [Ht1 [Ht2 Ht3]].
+    assert (Hlp : lp < length (wh_slots s)).
+    { rewrite g4, Ht2. apply Nat.mod_upper_bound. lia. }
+    cbn [fst]. split; [|split].
+    + constructor; unfold wh_P, wh_S; cbn; try assumption.
+      * rewrite wh_set_nth_length by exact Hlp. exact g4.
+      * lia.
+      * intros j x Hj. rewrite wh_nth_set_nth in Hj by exact Hlp.
+        destruct (j =? lp) eqn:Ej.
+        -- apply Nat.eqb_eq in Ej. injection Hj as Hj. subst x j. rewrite g6. split; [|lia].
+           replace (wh_nclosed s + wh_n s) with (wh_nclosed s + 1 * wh_n s) by lia.
+           rewrite Nat.mod_add by lia. symmetry. exact Ht2.
+        -- apply Nat.eqb_neq in Ej. destruct (g7 _ _ Hj) as [Hm Hrange]. split; [exact Hm|].
+           assert (x <> wh_nclosed s) by (intros ->; congruence). lia.
+    + unfold wh_tinv. cbn. split; assumption.
+    + apply (wh_tsinv_mono s); unfold wh_P; cbn; rewrite ?E; try reflexivity; try assumption; lia.
+  - (* WT5: close *)
+    destruct Ht as [Ht1 Ht2].
+    rewrite g8. subst last. rewrite Nat.ltb_irrefl.
+    cbn [fst]. split; [|split].
+    + constructor; unfold wh_P, wh_S; cbn [wh_s wh_n wh_pos wh_slots wh_next wh_tpc_of wh_nclosed wh_upd_ticker]; try assumption.
+      intros x. rewrite wh_closed_at_cons. rewrite g8.
+      destruct (wh_nclosed s =? x) eqn:Ex.
+      * apply Nat.eqb_eq in Ex. subst x. replace (wh_nclosed s <? S (wh_nclosed s)) with true; [reflexivity|].
+        symmetry. apply Nat.ltb_lt. lia.
+      * apply Nat.eqb_neq in Ex.
+        destruct (x <? wh_nclosed s) eqn:E1; destruct (x <? S (wh_nclosed s)) eqn:E2; try reflexivity;
+          [apply Nat.ltb_lt in E1; apply Nat.ltb_ge in E2 | apply Nat.ltb_ge in E1; apply Nat.ltb_lt in E2]; lia.
+    + unfold wh_tinv. cbn. exact Ht1.
+    + apply (wh_tsinv_mono s); unfold wh_P; cbn; rewrite ?E; try reflexivity; try assumption; lia.
+  - (* WTDead *) destruct Ht.
+Qed.
+
+Lemma wh_counters s :
+  wh_tinv s ->
+  wh_nclosed s <= wh_S s /\ wh_S s <= wh_P s /\ wh_P s <= S (wh_S s) /\ wh_P s <= wh_nstarted s.
+Proof.
+  unfold wh_tinv, wh_S, wh_P. destruct (wh_tpc_of s); intros H; lia.
+Qed.
+
+Lemma wh_idx_ok_of_index s n d i :
+  (0 < s)%Z -> 1 <= n -> (s * Z.of_nat n < 2 ^ 63)%Z ->
+  wh_bucket_index s n d = Some i -> wh_idx_ok n i.
+Proof.
+  intros Hs Hn Hb H. destruct (wh_index_bound s n d i Hs Hb H) as [H1 H2].
+  unfold wh_idx_ok. destruct (Nat.eq_dec n 1) as [E|E]; [right; split; [exact E|apply H2; exact E]|].
+  left. assert (Hn2 : 2 <= n) by lia. specialize (H1 Hn2). lia.
+Qed.
+
+(* one requester step from a state satisfying the invariant: the thread's own invariant is
+   re-established, nothing panics except the documented range check, and a returned channel
+   lies in the window *)
+Lemma wh_req_step_th_inv s th th' ev :
+  wh_ginv s -> wh_tinv s ->
+  wh_rinv (wh_n s) (wh_nclosed s) (wh_P s) (wh_rpc_of th) ->
+  wh_req_step_th WFixed s th = (th', ev) ->
+  wh_rinv (wh_n s) (wh_nclosed s) (wh_P s) (wh_rpc_of th') /\
+  ev <> WEPanicIndex /\ (forall ch, ev <> WEPanicClose ch) /\
+  (forall g, ev <> WETickInv g) /\ (forall g ch, ev <> WETickRet g ch) /\
+  (forall i k0 k1 ch, ev = WERet i k0 k1 ch -> k0 + i <= ch /\ ch <= k1 + i).
+Proof.
+  intros Hg Ht Hr Hstep.
+  destruct (wh_counters s Ht) as [HCS [HSP [HPS HPst]]].
+  destruct Hg as [g1 g2 g3 g4 g5 g6 g7 g8].
+  unfold wh_req_step_th in Hstep.
+  destruct (wh_rpc_of th) as [|i k0|i k0 p|i k0 p x|] eqn:Epc; cbn [wh_rinv] in Hr.
+  - (* idle: invocation *)
+    destruct (wh_todo th) as [|op rest].
+    { injection Hstep as <- <-. rewrite Epc. cbn. repeat split; intros; discriminate. }
+    destruct (wh_eff_duration (wh_s s) (wh_tint th) op) as [d ti].
+    destruct (wh_bucket_index (wh_s s) (wh_n s) d) as [i|] eqn:Ei.
+    + injection Hstep as <- <-. cbn [wh_rpc_of wh_rinv].
+      split; [split; [eapply wh_idx_ok_of_index; eassumption|lia]|].
+      repeat split; intros; discriminate.
+    + injection Hstep as <- <-. cbn. repeat split; intros; discriminate.
+  - (* load position *)
+    destruct Hr as [Hi Hk]. injection Hstep as <- <-. cbn [wh_rpc_of wh_rinv].
+    split; [|repeat split; intros; discriminate].
+    split; [exact Hi|]. split; [exact Hk|]. exists (wh_P s). split; [exact g5|]. lia.
+  - (* load slot *)
+    destruct Hr as [Hi [Hk [c [Hp [Hc1 Hc2]]]]].
+    destruct (nth_error (wh_slots s) ((p + i) mod wh_n s)) as [x|] eqn:En.
+    + injection Hstep as <- <-. cbn [wh_rpc_of wh_rinv].
+      split; [|repeat split; intros; discriminate].
+      split; [exact Hi|]. split; [exact Hk|]. exists c. split; [exact Hp|].
+      destruct (g7 _ _ En) as [Hm Hrange].
+      assert (Hmod : x mod wh_n s = (c + i) mod wh_n s).
+      { rewrite Hm, Hp. apply Nat.add_mod_idemp_l. lia. }
+      split; [exact Hmod|]. split; [|lia].
+      destruct Hi as [Hi | [Hn1 Hi0]].
+      * assert (c + i <= x); [|lia].
+        apply (wh_mod_le (wh_n s)); [lia|symmetry; exact Hmod|lia].
+      * lia.
+    + exfalso. apply nth_error_None in En. rewrite g4 in En.
+      pose proof (Nat.mod_upper_bound (p + i) (wh_n s) ltac:(lia)). lia.
+  - (* re-load position *)
+    destruct Hr as [Hi [Hk [c [Hp [Hm [Hlo Hhi]]]]]].
+    destruct (p =? wh_pos s) eqn:Epos.
+    + apply Nat.eqb_eq in Epos. injection Hstep as <- <-. cbn [wh_rpc_of wh_rinv].
+      split; [exact I|]. split; [discriminate|]. split; [intros; discriminate|].
+      split; [intros; discriminate|]. split; [intros; discriminate|].
+      intros i' k0' k1' ch' Hev. injection Hev as <- <- <- <-. split; [exact Hlo|].
+        assert (Hm2 : x mod wh_n s = (wh_P s + i) mod wh_n s).
+        { rewrite Hm. rewrite <- (Nat.add_mod_idemp_l c) by lia. rewrite <- Hp, Epos, g5.
+          apply Nat.add_mod_idemp_l. lia. }
+        assert (x <= wh_P s + i); [|lia].
+        apply (wh_mod_le (wh_n s)); [lia|exact Hm2|lia].
+    + injection Hstep as <- <-. cbn [wh_rpc_of wh_rinv].
+      split; [split; assumption|]. repeat split; intros; discriminate.
+  - injection Hstep as <- <-. rewrite Epc. cbn. repeat split; intros; discriminate.
+Qed.
